@@ -401,6 +401,19 @@ def healpy_case(nside, dtype, angle_dtype, theta, phi):
     return {'kind': 'healpy', 'nside': int(nside), 'dtype': dtype, 'angle_dtype': angle_dtype, 'theta': float(theta), 'phi': float(phi), 'x64': x64_mode()}
 
 
+NPOT_KEY = 'healpix-nside-not-power-of-two-equatorial-belt'
+
+
+def npot_signature(nside, got, exp) -> bool:
+    """The signature of the known jax_healpy defect: both pixel numbers lie in the SAME ring of the equatorial belt
+    (rings nside .. 3 nside, 4 nside pixels each) - only the position inside the ring is wrong."""
+    ncap, npix = 2 * nside * (nside - 1), 12 * nside * nside
+    got, exp = int(got), int(exp)
+    if not (ncap <= got < npix - ncap and ncap <= exp < npix - ncap):
+        return False
+    return (got - ncap) // (4 * nside) == (exp - ncap) // (4 * nside)
+
+
 def healpy_check(configs, seed):
     """configs: [nside, landscape dtype, angle dtype, nrandom, hard].  `hard` configurations use every class of
     directions (double precision angles); the others (single precision angle arithmetic) use the classes that
@@ -423,6 +436,13 @@ def healpy_check(configs, seed):
             bad = np.arange(min(1, theta.size))
         # structural clauses (dtype, arity) are judged on the first direction even without a mismatch
         todo = list(bad) if len(bad) else [0]
+        npot = nside & (nside - 1) != 0
+        if npot and len(bad):
+            # known finding (KNOWN_FINDINGS.txt): jax_healpy's ring lookup masks the in-ring index with `& (4 nside - 1)`,
+            # which is `% (4 nside)` only for power-of-two nside - wrong pixels in the equatorial belt |cos theta| <= 2/3.
+            # Mismatches in the polar caps are examined FIRST so that anything else is still reported as a violation.
+            belt = np.array([npot_signature(nside, ev['index'][j], ev['healpy'][j]) for j in bad]) if same_shape else np.zeros(len(bad), bool)
+            todo = list(bad[np.argsort(belt, kind='stable')])
         nb, nfail, by_class = 0, 0, {}
         for i in todo:
             if nfail >= 1:
@@ -440,7 +460,7 @@ def healpy_check(configs, seed):
                         'case': healpy_case(nside, dtype, angle_dtype, ev['theta'][i], ev['phi'][i]),
                         'observation': {'world2index': int(ev['index'][i]) if same_shape else None, 'healpy': int(ev['healpy'][i]), 'class': tag[i], 'mismatching_directions': int(len(bad)), 'of': int(theta.size)},
                         'oracle': msg,
-                        'key': None,
+                        'key': NPOT_KEY if npot and same_shape and npot_signature(nside, ev['index'][i], ev['healpy'][i]) else None,
                     }
                 )
         rec.update({'mismatches': int(len(bad)), 'within_rounding_tolerance': nb, 'failures': nfail, 'failures_by_class': by_class})
@@ -1180,6 +1200,9 @@ class Check(PropertyCheck):
                         configs.append([nside, dtype, 'float32', 5000, False])
                 else:
                     configs.append([nside, dtype, 'float64', 5000 if not big else 20000, False])
+        # resolutions that are NOT powers of two (legal in ring ordering): "for every resolution"
+        for nside in ((3, 6, 37) if quick else (3, 5, 6, 7, 12, 37, 100, 1000)):
+            configs.append([nside, 'float64', 'float64', 3000, bool(x64)])
         if x64:
             for nside in (16384, 2**20) if quick else (2**17, 2**20, 2**24):
                 for dtype in ('float64', 'float32'):
